@@ -93,6 +93,33 @@ def pipeline_function(em):
     return views
 
 
+def rule_everything_is_parsed(em, rep, rid, g):
+    rep.rule(rid, 'whatever reaches the compiler came out of the parser: in the pipeline function (helpers pasted in) no path leads '
+                  'from the entry to the call that compiles the program, or to a return of generated code, without passing the call '
+                  'of the parser\'s start rule - a second recogniser in front of the parser (a fast path for "simple" sources) '
+                  'accepts what it accepts, not what the grammar accepts')
+    start = g.start_rule
+    f = pipeline_function(em)[0]
+    cfg = em.cfg(f)
+    parser, _ = _assigned_from_ctor(f, 'Parser')
+    parser_names = aliases(f, parser) if parser else set()
+    parse_calls = [n for n in cfg.nodes if n.kind == 'call' and isinstance(n.ast.func, ast.Attribute) and
+                   _is_one_of(n.ast.func.value, parser_names) and n.ast.func.attr == start]
+    if not parse_calls:
+        raise AnalysisError('anchor vanished: no call of the start rule %s in %s' % (start, f.qname))
+    sinks = [n for n in cfg.nodes if n.kind == 'call' and isinstance(n.ast.func, ast.Attribute) and n.ast.func.attr in ('compile_program', 'generate')]
+    sinks += [n for n in cfg.nodes if n.kind == 'return' and n.ast is not None and not (isinstance(n.ast, ast.Constant) and n.ast.value is None)]
+    key = '%s:parse' % f.qname
+    path = cfg.g.find_path(cfg.entry, lambda m: m in sinks, avoid=lambda m: m in parse_calls,
+                           edge_ok=lambda lbl, a, b: lbl not in ('exc', 'throw', 'close'))
+    if path is not None:
+        rep.violation(rid, key, 'code can be generated for a source that the parser never saw: a path reaches %s without the call of '
+                      'parser.%s()' % (norm(path[-1][1].ast)[:40] if path[-1][1].ast is not None else 'the return', start), f.loc(),
+                      cfg.describe_path(path))
+    else:
+        rep.ok(rid, key, 'every path to the compiler and to a result passes parser.%s()' % start, f.loc(parse_calls[0].stmt))
+
+
 def rule_entries_always_run_pipeline(em, rep, rid):
     rep.rule(rid, 'the library entry points run the compile pipeline on the input of this very call, on every path that returns: '
                   'no return of compile_prolog_from_string / compile_prolog_from_file is reachable without passing a call that '
